@@ -1,7 +1,7 @@
 """Which properties are claimed, at what level, and why the others are not."""
 
 HOOK_COMMITS = []
-FIX_COMMITS = ["5a7ea92", "968480f", "81560c0", "dd9d1dc", "30a1d27", "d05b8f1", "483ac36", "3ec4792", "3944e47", "ae7798f", "050b368", "8bc95ce", "d5cf2b7", "6953efe", "1247e95", "4d49515", "6f570af", "59d7027", "904a9ec"]
+FIX_COMMITS = ["5a7ea92", "968480f", "81560c0", "dd9d1dc", "30a1d27", "d05b8f1", "483ac36", "3ec4792", "3944e47", "ae7798f", "050b368", "8bc95ce", "d5cf2b7", "6953efe", "1247e95", "4d49515", "6f570af", "646d20b", "26bde2f", "3289b76", "59d7027", "904a9ec"]
 
 _PURE = "pure function of its arguments (no storage, stream, clock, retry, schedule or fault in the statement or the anchored code): deciding it means generating inputs, which is not deterministic simulation (DESIGN.md section 6)"
 
@@ -18,6 +18,30 @@ NOT_APPLICABLE = {
 NOT_BUILT = {}
 
 CLAIMED = {
+    "C12": {
+        "level": "exploration",
+        "text": "Seeded tree states (modified, edited-after-merge, added, unknown, renamed+edited files; an optional previous merge that leaves merge-written files and conflicts) and one command per run - revert(paths, backups), remove(paths, keep_files, force), merge, update in a lightweight checkout, switch, pull, uncommit - judged by a conservation oracle over the multiset of user-edited contents: every content not explicitly discarded is found byte-identical in the tree, in a numbered backup or conflict helper, or as the clean merge3 of it with the incoming change; uncommit leaves every file byte- and stat-identical. Sampling.",
+        "note": "'kept' means found anywhere in the tree (contents are unique per edit); symlinks/directories and git trees not judged; no os-level faults here (C13 owns them).",
+        "technique": "deterministic simulation: conservation oracle over the content multiset with a merge3 reference",
+    },
+    "C17": {
+        "level": "exploration",
+        "text": "BASE built from simulated tree histories; THIS and OTHER derived by model-approved edit batches so that one of the four law preconditions holds by construction (OTHER=BASE, THIS=BASE, identical batches, disjoint ownership), incl. renames, deletions, kind changes; merge3 / weave / lca (with a criss-cross prelude for two LCAs), bzr and git trees; the merged tree (disk, versioned view, kinds, contents, exec bits, ids) must equal the law's prediction and no conflict may be returned or recorded. Sampling.",
+        "note": "Laws exercised only on histories the tree model can predict and, for git, outside four recorded open findings (lifted in 15% of runs); text merges are C19's subject.",
+        "technique": "deterministic simulation: metamorphic merge laws over tree triples constructed by simulated histories",
+    },
+    "C19": {
+        "level": "exploration",
+        "text": "Generated BASE/THIS/OTHER line triples (tiny alphabet, marker look-alikes, missing final newlines, CRLF) committed on two real branches and merged with Merge3Merger under reprocess / show_base / cherrypick; reference = the merge3 dependency: a TextConflict is recorded iff the reference has a conflict region, the file equals the reference rendering and .BASE/.THIS/.OTHER hold the three texts, otherwise the clean merge and no helpers; resolve take_this / take_other leaves exactly that text and removes helpers and record. Sampling.",
+        "note": "Weave/LCA text merges not judged (no reference); reprocess+show_base only checked for a clean refusal; one open finding (a user line starting with breezy's private sentinel marker).",
+        "technique": "deterministic simulation: reference-model differential against the merge3 dependency over generated text triples and merge options",
+    },
+    "C20": {
+        "level": "exploration",
+        "text": "Generated conflict lists of all ten types with unusual unicode paths and file ids, set/add/resolve/merge-hash operations with re-open after every step compared with a list model; the last write is swept in-process with err_before at every op and crash (dropped/applied/torn) at every mutating op of the control-file write (sampled points per run): a fresh open reads the old or the new record, never a parse error. Sampling.",
+        "note": "Order chosen by add_conflicts and __eq__-equal duplicates not judged; stale-hash entries may be dropped; one defect fixed in /repo (resolve below a regular file).",
+        "technique": "deterministic simulation: model-based round trip plus re-execution fault sweep at the storage seam",
+    },
     "C35": {
         "level": "exploration",
         "text": "Generated native 2a histories (files, dirs incl. empty, symlinks, exec-only changes, renames, deletes, merges) pushed lossy into a git repository on the simulated store in one go or tip by tip with a Dict/Index/Sqlite SHA-map cache kept, re-opened or cold per push, optionally with a crash/transport error at a seeded store op of cache or target followed by a re-push from a fresh process, then fetched back; and git-origin histories (dulwich) imported and exported again. Per revision: pushed objects == from-scratch _tree_to_objects == a format-only conversion, no dangling tree entries, stable commit SHAs across cache states, original SHAs reproduced, round-trip trees equal modulo empty directories. Sampling, not proof.",
